@@ -249,7 +249,7 @@ def jacobian_at(F, X, sub):
     return out
 
 
-def build_ekf(sc, config=None, container="set", proactive_simplify=False):
+def build_ekf(sc, config=None, container="set", proactive_simplify=False, mapping_subclasses=False):
     from replay import shim
     from replay.native import repo_import
 
@@ -261,6 +261,15 @@ def build_ekf(sc, config=None, container="set", proactive_simplify=False):
     # the calibration map is written in REVERSE name order (a map has no order the library may rely on)
     cal = dict(sorted(sc.calibration_map.items(), key=lambda kv: kv[0].name, reverse=True))
     pn, sms, sns = dict(sc.process_noise), {k: dict(v) for k, v in sc.sensor_models.items()}, {k: dict(v) for k, v in sc.sensor_noises.items()}
+    if mapping_subclasses:
+        # the maps handed over as dict SUBCLASSES a caller may well use: a defaultdict (indexing a missing key inserts and returns 0.0
+        # instead of raising) for the noises, an OrderedDict for the sensor models
+        import collections
+
+        pn = collections.defaultdict(float, pn)
+        sns = collections.OrderedDict((k, collections.defaultdict(float, v)) for k, v in sns.items())
+        sms = collections.OrderedDict(sms)
+        cal = collections.OrderedDict(cal)
     before = definition_snapshot(model, pn, sms, sns, cal)
     ekf = py.compile_ekf(model, pn, sms, sns, calibration_map=cal, config=cfg)
     after = definition_snapshot(model, pn, sms, sns, cal)
